@@ -232,6 +232,11 @@ def _do(c, op, ctx):
         return fp(c.pull(**_kw(op, ('prefix', 'side', 'expire_time', 'tag', 'retry'))))
     if name == 'peek':
         return fp(c.peek(**_kw(op, ('prefix', 'side', 'expire_time', 'tag', 'retry'))))
+    if name == 'get_many':
+        # Django's multi-key lookup (BaseCache.get_many unless the backend brings its own)
+        return fp(sorted((repr(k), fp(v)) for k, v in c.get_many([vals.dec(k) for k in op['ks']]).items()))
+    if name == 'has_key':
+        return fp(c.has_key(vals.dec(op['k'])))
     if name == 'repolicy':
         # another handle (another process) changes the eviction policy of the directory; this handle reloads the setting
         # the documented way - reset(key) without a value - and from then on follows the new policy
